@@ -751,9 +751,14 @@ def set_method(I, st, ref, h, name, args, kwargs, node):
                 out.append((s2, None))
             return out
         if name == "update":
+            # every `add` may fork (membership of a symbolic element): thread the forked states through
+            results = [(st, None)]
             for x in I.iter_concrete(st, args[0], node):
-                set_method(I, st, ref, h, "add", [x], {}, node)
-            return [(st, None)]
+                nxt = []
+                for s, _ in results:
+                    nxt.extend(set_method(I, s, ref, s.get(ref), "add", [x], {}, node))
+                results = nxt
+            return results
         if name == "discard" or name == "remove":
             st.written.add((ref.id, "*"))
             for i, x in enumerate(h.items):
@@ -1307,3 +1312,28 @@ def install(I):
     reg(hasattr, builtin_hasattr)
     reg(callable, builtin_callable)
     reg(threading.Lock, lambda I, st, args, kwargs, node: [(st, st.alloc(HLock()))])
+    import math
+
+    def float_pred(fn):
+        # math.isfinite / isnan / isinf: host value -> computed; opaque value -> an uninterpreted
+        # predicate of the value (dependency spec: total and pure on numbers, TypeError otherwise is
+        # not modelled because callers guard with isinstance)
+        pred = z3.Function(f"math.{fn.__name__}", Obj, z3.BoolSort())
+
+        def h(I, st, args, kwargs, node):
+            a = args[0]
+            if is_host(a):
+                try:
+                    return [(st, fn(a))]
+                except Exception as ex:
+                    return raise_(st, type(ex), *ex.args, node=node)
+            if isinstance(a, Sym) and a.k == "int":
+                return [(st, fn is math.isfinite)]
+            if isinstance(a, Sym):
+                used(f"math.{fn.__name__}")
+                return [(st, Sym(pred(to_term(a, "obj")), "bool"))]
+            raise Unsupported(f"math.{fn.__name__} of {a!r}", node)
+        return h
+
+    for _fn in (math.isfinite, math.isnan, math.isinf):
+        reg(_fn, float_pred(_fn))
